@@ -105,8 +105,55 @@ func paramDecls(fd *ast.FuncDecl, x *file) (string, []string) {
 	return b.String(), names
 }
 
+// depFoldPaged: MakeTracesDependancyGraph with a paging loop `for { … acc = append(acc, <resp>.Hits.Spans...) … }`
+// (the shape of ProcessRedTracesIngest): the loop is replaced by "all spans are <spans>", every other statement is
+// copied.  Returns "" when the function has no such loop (the older one-request shape, handled by depFold itself).
+func depFoldPaged(x *file, fd *ast.FuncDecl) string {
+	L := fd.Body.List
+	loop, acc := -1, ""
+	re := regexp.MustCompile(`^(\w+)\s*=\s*append\((\w+),\s*\w+\.Hits\.Spans\.\.\.\)$`)
+	for i, s := range L {
+		fs, ok := s.(*ast.ForStmt)
+		if !ok || fs.Cond != nil || fs.Init != nil || fs.Post != nil {
+			continue
+		}
+		for _, b := range fs.Body.List {
+			if m := re.FindStringSubmatch(strings.TrimSpace(x.text(b))); m != nil && m[1] == m[2] {
+				loop, acc = i, m[1]
+			}
+		}
+		if loop >= 0 {
+			break
+		}
+	}
+	if loop < 0 {
+		return ""
+	}
+	if len(fd.Type.Results.List) != 1 {
+		die("MakeTracesDependancyGraph: expected one result")
+	}
+	pd, pn := paramDecls(fd, x)
+	var b strings.Builder
+	fmt.Fprintf(&b, "func VerifDepFold(verifIn []*structs.Span) %s {\n", x.text(fd.Type.Results.List[0].Type))
+	b.WriteString(pd)
+	b.WriteString(useAll(pn))
+	for i, s := range L {
+		if i == loop {
+			fmt.Fprintf(&b, "\t%s = append(%s, verifIn...)\n", acc, acc)
+			continue
+		}
+		b.WriteString("\t" + x.text(s) + "\n")
+		b.WriteString(useAll(definedNames([]ast.Stmt{s})))
+	}
+	b.WriteString("}\n")
+	return b.String()
+}
+
 func depFold(x *file) string {
 	fd := x.fn("MakeTracesDependancyGraph")
+	if paged := depFoldPaged(x, fd); paged != "" {
+		return paged
+	}
 	L := fd.Body.List
 	u := -1
 	for i, s := range L {
